@@ -73,3 +73,230 @@ theorem lambdaBody_fin_wid (stdin : Bool) (id : Nat) (sc : Script) (b : Bool) :
       · cases hw : sc.wait <;> simp [ha] <;> intro m _ hm <;> exact hm
 
 end Eru.Cluster2
+
+namespace Eru.Cluster2
+open Eru.Cluster (ResAlg)
+variable {R : Type} [ResAlg R]
+
+/-! ### all workers (`runAll`) -/
+def okIds (cms : List (CreateMsg × Script)) : List Nat :=
+  cms.filterMap fun p => match p.1 with | .ok i => some i | .failed => none
+
+theorem okIds_cons_ok (i : Nat) (sc : Script) (rest : List (CreateMsg × Script)) :
+    okIds ((CreateMsg.ok i, sc) :: rest) = i :: okIds rest := by simp [okIds]
+theorem okIds_cons_failed (sc : Script) (rest : List (CreateMsg × Script)) :
+    okIds ((CreateMsg.failed, sc) :: rest) = okIds rest := by simp [okIds]
+
+theorem lambdaOne_ok_eq (stdin : Bool) (id : Nat) (sc : Script) (s : LSt R) (hlog : sc.walLog = true) :
+    lambdaOne stdin (.ok id) sc s =
+      ({ base := removeSync id s.base, lam := (s.lam ++ [id]).erase id, done := s.done + 1 },
+       (lambdaBody stdin id sc (recorded s.base id)).1 ++ [(lambdaBody stdin id sc (recorded s.base id)).2]) := by
+  simp [lambdaOne, hlog]
+
+theorem lambdaOne_failed_eq (stdin : Bool) (sc : Script) (s : LSt R) :
+    lambdaOne stdin .failed sc s = ({ s with done := s.done + 1 }, [⟨0, .error⟩]) := rfl
+
+/-- the messages of a worker only depend on whether its workload is recorded when it starts -/
+theorem lambdaOne_msgs_congr (stdin : Bool) (id : Nat) (sc : Script) (s s' : LSt R)
+    (h : recorded s.base id = recorded s'.base id) :
+    (lambdaOne stdin (.ok id) sc s).2 = (lambdaOne stdin (.ok id) sc s').2 := by
+  cases hl : sc.walLog with
+  | true => rw [lambdaOne_ok_eq _ _ _ _ hl, lambdaOne_ok_eq _ _ _ _ hl, h]
+  | false => simp [lambdaOne, hl]
+
+theorem lambdaOne_msgs_wid (stdin : Bool) (id : Nat) (sc : Script) (s : LSt R) :
+    ∀ m ∈ (lambdaOne stdin (.ok id) sc s).2, m.wid = id := by
+  intro m hm
+  cases hl : sc.walLog with
+  | true =>
+    rw [lambdaOne_ok_eq _ _ _ _ hl] at hm
+    rcases List.mem_append.mp hm with h | h
+    · rw [(lambdaBody_fin_wid _ _ _ _).2 m h]
+    · simp only [List.mem_singleton] at h; rw [h]; exact (lambdaBody_fin_wid _ _ _ _).1
+  | false => simp [lambdaOne, hl] at hm; rw [hm]
+
+theorem msgsOf_append (id : Nat) (a b : List Msg) : msgsOf id (a ++ b) = msgsOf id a ++ msgsOf id b := by
+  simp [msgsOf]
+theorem msgsOf_all (id : Nat) (a : List Msg) (h : ∀ m ∈ a, m.wid = id) : msgsOf id a = a := by
+  simp only [msgsOf]; apply List.filter_eq_self.mpr; intro m hm; simp [h m hm]
+theorem msgsOf_none (id : Nat) (a : List Msg) (h : ∀ m ∈ a, m.wid ≠ id) : msgsOf id a = [] := by
+  simp only [msgsOf]; apply List.filter_eq_nil_iff.mpr; intro m hm; simp [h m hm]
+
+theorem runAll_msgs_wid (stdin : Bool) (cms : List (CreateMsg × Script)) : ∀ (s : LSt R),
+    ∀ m ∈ (runAll stdin cms s).2, m.wid = 0 ∨ m.wid ∈ okIds cms := by
+  induction cms with
+  | nil => intro s m hm; simp [runAll] at hm
+  | cons x rest ih =>
+    intro s m hm
+    obtain ⟨cm, sc⟩ := x
+    simp only [runAll] at hm
+    rcases List.mem_append.mp hm with h | h
+    · cases cm with
+      | failed => left; rw [lambdaOne_failed_eq] at h; simp at h; rw [h]
+      | ok i => right; rw [okIds_cons_ok, lambdaOne_msgs_wid stdin i sc s m h]; exact List.mem_cons_self
+    · rcases ih _ m h with a | a
+      · exact Or.inl a
+      · right
+        cases cm with
+        | failed => rw [okIds_cons_failed]; exact a
+        | ok i => rw [okIds_cons_ok]; exact List.mem_cons_of_mem _ a
+
+theorem runAll_recorded_le (stdin : Bool) (cms : List (CreateMsg × Script)) (j : Nat) : ∀ (s : LSt R),
+    recorded (runAll stdin cms s).1.base j = true → recorded s.base j = true := by
+  induction cms with
+  | nil => intro s h; exact h
+  | cons x rest ih =>
+    intro s h
+    obtain ⟨cm, sc⟩ := x
+    have h1 := ih _ h
+    cases cm with
+    | failed => exact h1
+    | ok i =>
+      cases hl : sc.walLog with
+      | true => rw [lambdaOne_ok_eq _ _ _ _ hl] at h1; rw [removeSync_recorded] at h1; simp only [Bool.and_eq_true] at h1; exact h1.1
+      | false => simpa [lambdaOne, hl] using h1
+
+theorem runAll_hasCt_le (stdin : Bool) (cms : List (CreateMsg × Script)) (j : Nat) : ∀ (s : LSt R),
+    hasCt (runAll stdin cms s).1.base j = true → hasCt s.base j = true := by
+  induction cms with
+  | nil => intro s h; exact h
+  | cons x rest ih =>
+    intro s h
+    obtain ⟨cm, sc⟩ := x
+    have h1 := ih _ h
+    cases cm with
+    | failed => exact h1
+    | ok i =>
+      cases hl : sc.walLog with
+      | true => rw [lambdaOne_ok_eq _ _ _ _ hl] at h1; exact removeSync_hasCt_le i j s.base h1
+      | false => simpa [lambdaOne, hl] using h1
+
+/-- after all workers: nothing of any started workload is left, bookkeeping consistent -/
+theorem runAll_clean (stdin : Bool) (cms : List (CreateMsg × Script)) : ∀ (s : LSt R),
+    (okIds cms).Nodup → (∀ p ∈ cms, p.2.walLog = true) → Consistent s.base → (s.base.wls.map (·.id)).Nodup →
+    (∀ i ∈ okIds cms, recorded s.base i = true) →
+    (∀ i ∈ okIds cms, recorded (runAll stdin cms s).1.base i = false ∧ hasCt (runAll stdin cms s).1.base i = false) ∧
+      Consistent (runAll stdin cms s).1.base ∧ ((runAll stdin cms s).1.base.wls.map (·.id)).Nodup := by
+  induction cms with
+  | nil => intro s _ _ hc hn _; exact ⟨fun i hi => by simp [okIds] at hi, hc, hn⟩
+  | cons x rest ih =>
+    intro s hnd hlog hc hn hrec
+    obtain ⟨cm, sc⟩ := x
+    cases cm with
+    | failed =>
+      rw [okIds_cons_failed] at hnd hrec
+      exact ih _ hnd (fun p hp => hlog p (List.mem_cons_of_mem _ hp)) hc hn hrec
+    | ok i =>
+      rw [okIds_cons_ok] at hnd hrec
+      have hl : sc.walLog = true := hlog _ List.mem_cons_self
+      have hri : recorded s.base i = true := hrec i List.mem_cons_self
+      have hone := lambdaOne_ok_eq stdin i sc s hl
+      let s1 : LSt R := { base := removeSync i s.base, lam := (s.lam ++ [i]).erase i, done := s.done + 1 }
+      have hrun : runAll stdin ((CreateMsg.ok i, sc) :: rest) s =
+          ((runAll stdin rest s1).1, (lambdaOne stdin (.ok i) sc s).2 ++ (runAll stdin rest s1).2) := by
+        simp only [runAll, hone]; rfl
+      have hrec1 : ∀ j ∈ okIds rest, recorded s1.base j = true := by
+        intro j hj
+        show recorded (removeSync i s.base) j = true
+        rw [removeSync_recorded, hrec j (List.mem_cons_of_mem _ hj)]
+        have : j ≠ i := fun e => (List.nodup_cons.mp hnd).1 (e ▸ hj)
+        simp [this]
+      obtain ⟨h1, h2, h3⟩ := ih s1 (List.nodup_cons.mp hnd).2 (fun p hp => hlog p (List.mem_cons_of_mem _ hp))
+        (removeSync_consistent i s.base hc hn) (removeSync_nodup i s.base hn) hrec1
+      rw [hrun]
+      refine ⟨?_, h2, h3⟩
+      intro j hj
+      rcases List.mem_cons.mp hj with e | e
+      · subst e
+        constructor
+        · cases hh : recorded (runAll stdin rest s1).1.base j with
+          | false => rfl
+          | true =>
+            have := runAll_recorded_le stdin rest j s1 hh
+            have e2 : recorded s1.base j = false := by
+              show recorded (removeSync j s.base) j = false
+              rw [removeSync_recorded]; simp
+            rw [e2] at this; cases this
+        · cases hh : hasCt (runAll stdin rest s1).1.base j with
+          | false => rfl
+          | true =>
+            have := runAll_hasCt_le stdin rest j s1 hh
+            have e2 : hasCt s1.base j = false := removeSync_hasCt j s.base hri
+            rw [e2] at this; cases this
+      · exact h1 j e
+
+/-- every `create-lambda` event is committed when the stream closes -/
+theorem runAll_wal_committed (stdin : Bool) (cms : List (CreateMsg × Script)) : ∀ (s : LSt R),
+    (okIds cms).Nodup → (∀ p ∈ cms, p.2.walLog = true) → (∀ i ∈ okIds cms, i ∉ s.lam) →
+    (runAll stdin cms s).1.lam = s.lam := by
+  induction cms with
+  | nil => intro s _ _ _; rfl
+  | cons x rest ih =>
+    intro s hnd hlog hfr
+    obtain ⟨cm, sc⟩ := x
+    cases cm with
+    | failed =>
+      rw [okIds_cons_failed] at hnd hfr
+      exact ih _ hnd (fun p hp => hlog p (List.mem_cons_of_mem _ hp)) hfr
+    | ok i =>
+      rw [okIds_cons_ok] at hnd hfr
+      have hl : sc.walLog = true := hlog _ List.mem_cons_self
+      have e : (lambdaOne stdin (.ok i) sc s).1.lam = s.lam := by
+        rw [lambdaOne_ok_eq _ _ _ _ hl]; exact erase_append_self s.lam i (hfr i List.mem_cons_self)
+      have := ih (lambdaOne stdin (.ok i) sc s).1 (List.nodup_cons.mp hnd).2 (fun p hp => hlog p (List.mem_cons_of_mem _ hp))
+        (fun j hj => by rw [e]; exact hfr j (List.mem_cons_of_mem _ hj))
+      simp only [runAll]; rw [this, e]
+
+/-- the message sequence of each worker inside the whole run is the one it would send alone -/
+theorem runAll_msgs (stdin : Bool) (cms : List (CreateMsg × Script)) : ∀ (s : LSt R) (id : Nat) (sc : Script),
+    (okIds cms).Nodup → 0 ∉ okIds cms → (CreateMsg.ok id, sc) ∈ cms →
+    msgsOf id (runAll stdin cms s).2 = (lambdaOne stdin (.ok id) sc s).2 := by
+  induction cms with
+  | nil => intro s id sc _ _ h; cases h
+  | cons x rest ih =>
+    intro s id sc hnd h0 hmem
+    obtain ⟨cm, sc'⟩ := x
+    simp only [runAll, msgsOf_append]
+    have hid0 : id ≠ 0 := by
+      intro e; apply h0; rw [← e]
+      simp only [okIds, List.mem_filterMap]; exact ⟨_, hmem, rfl⟩
+    cases cm with
+    | failed =>
+      rw [okIds_cons_failed] at hnd h0
+      have hm : (CreateMsg.ok id, sc) ∈ rest := by
+        rcases List.mem_cons.mp hmem with e | e
+        · cases e
+        · exact e
+      rw [lambdaOne_failed_eq]
+      rw [msgsOf_none id [⟨0, .error⟩] (by intro m hm'; simp at hm'; rw [hm']; exact fun e => hid0 e.symm)]
+      rw [List.nil_append, ih _ id sc hnd h0 hm]
+      exact lambdaOne_msgs_congr stdin id sc _ _ rfl
+    | ok i =>
+      rw [okIds_cons_ok] at hnd h0
+      have hnd' := List.nodup_cons.mp hnd
+      have h0' : 0 ∉ okIds rest := fun e => h0 (List.mem_cons_of_mem _ e)
+      rcases List.mem_cons.mp hmem with e | e
+      · -- the head is our worker
+        have ei : id = i := by cases e; rfl
+        have es : sc = sc' := by cases e; rfl
+        subst ei; subst es
+        rw [msgsOf_all id _ (lambdaOne_msgs_wid stdin id sc s)]
+        rw [msgsOf_none id (runAll stdin rest (lambdaOne stdin (.ok id) sc s).1).2]
+        · simp
+        · intro m hm
+          rcases runAll_msgs_wid stdin rest _ m hm with a | a
+          · rw [a]; exact fun e' => hid0 e'.symm
+          · intro e'; rw [e'] at a; exact hnd'.1 a
+      · -- another worker first
+        have hne : id ≠ i := by
+          intro e'; apply hnd'.1; rw [← e']
+          simp only [okIds, List.mem_filterMap]; exact ⟨_, e, rfl⟩
+        rw [msgsOf_none id (lambdaOne stdin (.ok i) sc' s).2
+          (by intro m hm; rw [lambdaOne_msgs_wid stdin i sc' s m hm]; exact fun e' => hne e'.symm)]
+        rw [List.nil_append, ih _ id sc hnd'.2 h0' e]
+        apply lambdaOne_msgs_congr
+        cases hl : sc'.walLog with
+        | true => rw [lambdaOne_ok_eq _ _ _ _ hl]; show recorded (removeSync i s.base) id = _; rw [removeSync_recorded]; simp [hne]
+        | false => simp [lambdaOne, hl]
+
+end Eru.Cluster2
